@@ -135,3 +135,13 @@ func run(d time.Duration, inside string, all bool, fn func()) Verdict {
 	}
 	return Verdict{}
 }
+
+// States returns the goroutine states (dump header, e.g. "sync.Cond.Wait", "sleep", "running") of the goroutines
+// whose stack contains every one of the substrings.
+func States(subs ...string) []string {
+	var out []string
+	for _, g := range find(dump(), subs...) {
+		out = append(out, stateOf(g))
+	}
+	return out
+}
